@@ -318,6 +318,25 @@ def run(rep, tier, rng):
                     rep.violation(f"populate({text!r}) stored keys {keys}, expected {[i_[0] for i_ in items]} in item order",
                                   {"case": {"alg": al, "text": text}})
 
+    # empty text and empty items: nothing is created by empty text; an empty item is an invalid name and stops the
+    # population there (items to its left stay, items to its right are not reached)
+    TABLE = [("", [], None), ("  ", [], None), (" A ; B ", ["A", "B"], None), ("A;;B", ["A"], "SpaParseError"), ("A;B;", ["A", "B"], "SpaParseError"),
+             (";A", [], "SpaParseError"), ("A; B = A * A ; C.normalized()", ["A", "B", "C"], None)]
+    for al in algs.ALGS:
+        for text, want_keys, want_err in TABLE:
+            pv = spa.Vocabulary(4, algebra=algs.alg_obj(al), pointer_gen=np.random.RandomState(3), max_similarity=1e9)
+            with warnings.catch_warnings():
+                warnings.simplefilter("ignore")
+                o = c.outcome(lambda: pv.populate(text))
+            rep.case(("populate-empty-items", al, text))
+            rep.count("populate-empty-items")
+            got_err = None if o[0] == "ok" else o[0]
+            if list(pv.keys()) != want_keys or got_err != want_err:
+                rep.violation(f"populate({text!r}) ({al}): keys {list(pv.keys())}, outcome {got_err or 'ok'}; expected keys {want_keys}, outcome {want_err or 'ok'}",
+                              {"case": {"alg": al, "text": text},
+                               "python": f"import numpy as np, nengo_spa as spa\nv = spa.Vocabulary(16)\ntry:\n    v.populate({text!r})\nexcept Exception as e:\n    print(type(e).__name__)\n"
+                                         f"assert list(v.keys()) == {want_keys!r}, list(v.keys())\n"})
+
     # an assignment whose expression itself contains '=' (split must stop at the first '=')
     for al in algs.ALGS:
         A = algs.alg_obj(al)
